@@ -9,7 +9,7 @@
 EXTENDS Integers, Sequences, FiniteSets, TLC
 Dims == [kind  : {"gpt", "mbr"},
          start : {"low", "s2048", "s2p23m1", "s2p23", "s2p23p1", "s2p32m1"},
-         size  : {"z1", "z3", "z2048"},
+         size  : {"z1", "z3", "z9", "z2048"},     \* z9: larger than one 4096-byte physical sector, not a multiple of it
          lss   : {"512", "4096"},
          pss   : {"512", "4096"},
          rlen  : {"zero", "minus1", "exact", "plus1"},
